@@ -288,6 +288,16 @@ Fixpoint drop_to_marker (l : option N) (fp : nat) (st : list item) : list item :
       end
   end.
 
+(* return.go, Return(1): what stays on the stack once the single result has been popped.
+   After fix 030cc3b3 everything above the frame pointer is discarded (inside a function); before it only one
+   marker directly below the result was dropped, and callFramePop handed the rest to the caller. *)
+Definition ret1_stack (fp : nat) (st : list item) : list item :=
+  if andb (Nat.ltb 0 fp) (Nat.ltb fp (length st)) then trunc fp st else st.
+Definition ret1_stack_old (fp : nat) (st : list item) : list item :=
+  if Nat.ltb fp (length st)
+  then match st with y :: r => if is_marker y then r else st | [] => st end
+  else st.
+
 (* callBytecodeFunction.go + callframe.go *)
 Definition call_func (p : program) (g : glob) (c : ctx) (u : nat) (cap : option nat) : R :=
   let parent := match unit_lit p u, cap with true, Some s => s | _, _ => c_syms c end in
@@ -316,8 +326,25 @@ Section WithChild.
   (* runs a child context to completion: returns the shared state and the error of cx.Run() *)
   Variable child : glob -> ctx -> glob * option err.
 
-  (* defer.go invokeDeferredStatements: for i := len-1 .. 0; stop at the first error other than ErrStop.
-     The child has no panicContext: the chain is cut. *)
+  (* defer.go invokeDeferredStatements / invokePanicDefers BEFORE fix b6774d66: for i := len-1 .. 0; return at
+     the first error other than ErrStop (the deferred calls registered before the failing one never run) *)
+  Fixpoint invoke_list_old (panicking : bool) (g : glob) (c : ctx) (ds : list dfr) : glob * ctx * option err :=
+    match ds with
+    | [] => (g, c, None)
+    | d :: r =>
+        let anc := if panicking then c_panic c :: g_anc g else [] in
+        let '(g1, e) := child (set_anc g anc) (child_ctx c d) in
+        let c1 := if panicking then set_panic c (hd None (g_anc g1)) else c in
+        let g2 := set_anc g1 (if panicking then tl (g_anc g1) else g_anc g) in
+        match e with
+        | None | Some EStop => invoke_list_old panicking g2 c1 r
+        | Some e' => (g2, c1, Some e')
+        end
+    end.
+
+  (* after fix b6774d66: every deferred call runs, the first error (other than ErrStop) is returned afterwards.
+     invokeDeferredStatements: the child has no panicContext (the chain is cut); invokePanicDefers: the child
+     can reach the panic state of this context and of the contexts further down the chain. *)
   Fixpoint invoke_list (panicking : bool) (g : glob) (c : ctx) (ds : list dfr) : glob * ctx * option err :=
     match ds with
     | [] => (g, c, None)
@@ -327,10 +354,8 @@ Section WithChild.
         let c1 := if panicking then set_panic c (hd None (g_anc g1)) else c in
         (* the child may have cleared the panic of a context further down the chain (recover walks it) *)
         let g2 := set_anc g1 (if panicking then tl (g_anc g1) else g_anc g) in
-        match e with
-        | None | Some EStop => invoke_list panicking g2 c1 r
-        | Some e' => (g2, c1, Some e')
-        end
+        let '(g3, c3, e3) := invoke_list panicking g2 c1 r in
+        (g3, c3, match e with None | Some EStop => e3 | Some e' => Some e' end)
     end.
   Definition invoke_deferred (g : glob) (c : ctx) : R := invoke_list false g c (rev (c_defers c)).
   Definition invoke_panic_defers (g : glob) (c : ctx) : R := invoke_list true g c (rev (c_defers c)).
@@ -341,7 +366,13 @@ Section WithChild.
     | [] => (g, c, None)
     | _ => let '(g1, c1, e) := invoke_deferred g c in (g1, set_defers c1 [], e)
     end.
-  (* before the fix the list stayed in place *)
+  (* RunDefers over the loop before fix b6774d66 *)
+  Definition run_defers_op_skip_old (g : glob) (c : ctx) : R :=
+    match c_defers c with
+    | [] => (g, c, None)
+    | _ => let '(g1, c1, e) := invoke_list_old false g c (rev (c_defers c)) in (g1, set_defers c1 [], e)
+    end.
+  (* before fix a4adb034 the list stayed in place *)
   Definition run_defers_op_old (g : glob) (c : ctx) : R :=
     match c_defers c with [] => (g, c, None) | _ => invoke_deferred g c end.
 
@@ -358,11 +389,7 @@ Section WithChild.
                   | None => (c, Some EOther)
                   | Some (x, c1) =>
                       let c2 := set_result c1 (match x with ItV v => Some v | _ => Some VNil end) in
-                      if Nat.ltb (c_fp c2) (length (c_stack c2))
-                      then match c_stack c2 with
-                           | y :: r => if is_marker y then (set_stack c2 r, None) else (c2, None)
-                           | [] => (c2, None) end
-                      else (c2, None)
+                      (set_stack c2 (ret1_stack (c_fp c2) (c_stack c2)), None)
                   end
       | RInt (S (S _)) => (set_result c None, None)
       | _ => (set_result (set_stack c (trunc (c_fp c - 1) (c_stack c))) None, None)
